@@ -16,6 +16,11 @@ Pipeline
      ActionTypeHint._check_type, parse_path, default_config_files), including failing ones;
      `.relative/.absolute/.cwd` of every parsed path value, os.getcwd() and current_path_dir after
      the call are compared with the model's `runItems` and with the static expectation of the generator;
+ (3b) 30% of the load programs live in a tree with three directory symlinks and spell files through them (op "runfs":
+     the model `runItemsF` runs over the kernel's directory automaton measured with os.path.realpath in the child); ~4% are the
+     `<link>/..` shapes of the open finding C19-abspath-through-link (wrong directory with decoys / os.chdir raising);
+ (3c) default stage: `checkTypePath` vs parse_args of a path-typed argument with/without a Path default (open finding
+     C19-default-same-spelling, exact grid); Path(Path, cwd=…) copies vs `mkPathArg`;
  (4) replay of the repaired defect F16 and of the open findings.
 """
 from __future__ import annotations
@@ -36,19 +41,33 @@ from ..lib.common import Ctx, MachineryError, repo_python_path
 
 MANIFEST = {
     "engine": "E6-PathMode",
-    "technique": "Lean 4 decision-table proof over a source-order transcription of Path.__init__ + bracket model of change_to_path_dir; "
-                 "regenerated flag table; exhaustive differential correspondence under an unprivileged uid",
+    "technique": "Lean 4 decision-table proof over a source-order transcription of Path.__init__ + bracket model of change_to_path_dir, "
+                 "as strings and over a file-system model with symbolic links (kernel resolution as an automaton on physical directories, measured "
+                 "with realpath on every run); regenerated flag table and pinned statements; exhaustive differential correspondence under an unprivileged uid",
     "text": "Theorems in lean/Jap/Props/C19.lean prove, for all modes and all well-formed file-system snapshots, that the model of Path.__init__ "
             "accepts iff every flag of the mode is satisfied as the class docstring describes it (full strength; the pre-fix code of the two repaired "
             "defects F19c/F19f is kept as a regression record), that every rejection is one of the fifteen PathError "
-            "raises (no OSError escapes), the absolute/relative bookkeeping, and for all nested load programs, failing ones included, that every path "
-            "value is resolved against the directory of its innermost enclosing config file and that cwd and current_path_dir are restored. The model is "
-            "tied to the code by regenerating the rules of _check_mode and the flag tests of __init__ into Gen/PathFlags and by an exhaustive comparison "
+            "raises (no OSError escapes), the absolute/relative bookkeeping (a Path given a Path is the identity), and for all nested load programs, "
+            "failing ones included, that every path value is resolved against the directory of its innermost enclosing config file and that cwd and "
+            "current_path_dir are restored.  Second model (Core/PathModeFS): the same loader over ANY file system with directory symlinks - os.chdir "
+            "resolved by the kernel, os.path.abspath/dirname/join lexical: the process cwd is restored for every file system, program and failure point "
+            "(os.chdir raising inside __enter__ included); every relative path at any depth resolves against the physical directory of the file that "
+            "spells it (the link's own directory for a symlinked file) under the decidable hypothesis lexOK (abspath does not change where the kernel "
+            "goes), which holds for every directory string without `..` and in every file system without directory links; the full statement is refuted "
+            "by two witnesses (open finding C19-abspath-through-link: <link>/../x resolves against the wrong directory, or os.chdir raises and "
+            "current_path_dir stays set).  Exact characterisations of the open findings C19-listfile-reresolved (accepted iff the spelling leads back "
+            "to the list file's directory) and C19-default-same-spelling (checkTypePath).  The model is "
+            "tied to the code by regenerating the rules of _check_mode, the flag tests and the relative/absolute/cwd statements of __init__, every statement "
+            "of change_to_path_dir, parse_value_or_config, _ActionConfigLoad._load_config and every `with change_to_path_dir(...)` site of the package into "
+            "Gen/PathFlags (tie theorems), by an exhaustive comparison "
             "of Path(p, mode) over every mode string of <=3 (thorough <=4) flags x a fixture of path kinds x working directories, run under uid 65534, "
-            "and by generated nested config-file programs run through parse_args/parse_path.",
+            "and by generated nested config-file programs (30% of them in directory trees with symlinked directories, whose automaton is measured with "
+            "os.path.realpath and handed to the model) run through parse_args/parse_path/get_defaults/relative_path_context.",
     "level_note": "Trusted: Lean kernel; axioms propext/Quot.sound/Classical.choice only; the extractor; the correspondence harness; os.path.expanduser/"
-                  "realpath/stat/access as the oracle of the file system; one consistent snapshot of the file system per constructor call (no races). "
-                  "Outside: URL and fsspec paths (flags u/s only permit), Windows, skip_check, symlinked config directories.",
+                  "realpath/stat/access as the oracle of the file system; one consistent snapshot of the file system per constructor call (no races); "
+                  "the kernel resolves a path component by component (FS.step) and os.getcwd() names the directory the process is in (FS.Lawful). "
+                  "Outside: URL and fsspec paths (flags u/s only permit), Windows, skip_check, file contents reached through a second resolution "
+                  "of a list-file spelling that names another existing file.",
 }
 
 NOBODY = 65534
@@ -414,14 +433,24 @@ def path_child(root, modes, want_perms, type_len):
                 if [q.relative, q.absolute, q.cwd] != with_cwd and len(out["book"]) < 20:
                     out["book"].append({"cwd": cwd_label, "label": label, "spelling": sp, "mode": "", "relative": q.relative, "absolute": q.absolute,
                                         "pcwd": q.cwd, "want_absolute": p.absolute})
+                # a Path given a Path keeps the three fields whatever cwd= says and wherever the process is; cwd="" means os.getcwd()
+                q2 = Path(p, "", cwd=cwd)
+                os.chdir(root)
+                try:
+                    q3 = Path(q2, "")
+                finally:
+                    os.chdir(cwd)
+                q4 = Path(sp, "", cwd="")
+                copies = [[q2.relative, q2.absolute, q2.cwd], [q3.relative, q3.absolute, q3.cwd], [q4.relative, q4.absolute, q4.cwd]]
             except Exception as ex:  # noqa: BLE001
                 with_cwd = ["exc:" + type(ex).__name__, "", ""]
+                copies = None
             want = expanded_l if expanded_l.startswith("/") else os.path.join(other, expanded_l)
             if with_cwd != [sp, want, other] and len(out["book"]) < 20:
                 out["book"].append({"cwd": cwd_label, "label": label, "spelling": sp, "mode": "", "relative": with_cwd[0], "absolute": with_cwd[1],
                                     "pcwd": with_cwd[2], "want_absolute": want})
             out["entries"].append({"cwd": cwd_label, "label": label, "spelling": sp, "expanded": expanded, "absolute": absolute,
-                                   "facts": facts, "res": res, "with_cwd": with_cwd})
+                                   "facts": facts, "res": res, "with_cwd": with_cwd, "copies": copies})
     return out
 
 
@@ -552,6 +581,13 @@ def path_stage(ctx: Ctx, alphabet, nflags):
         lines.append({"op": "mk", "path": e["spelling"], "expanded": e["expanded"], "cwd": os.path.join(root, "w1") if e["cwd"] == "w1" else os.path.join(root, "w2", "sub")})
     for e in entries:
         lines.append({"op": "mk", "path": e["spelling"], "expanded": e["expanded"], "cwd": os.path.join(root, "k", "dir")})
+    # Path(Path, cwd=…) and cwd="" through the model (mkPathArg)
+    wdir_of = {"w1": os.path.join(root, "w1"), "w2": os.path.join(root, "w2", "sub")}
+    for e in entries:
+        o = dict(zip(("relative", "absolute", "cwd"), e["with_cwd"]))
+        lines.append({"op": "mkarg", "obj": o, "cwdarg": wdir_of[e["cwd"]], "oscwd": wdir_of[e["cwd"]]})
+        lines.append({"op": "mkarg", "obj": o, "cwdarg": None, "oscwd": root})
+        lines.append({"op": "mkarg", "path": e["spelling"], "expanded": e["expanded"], "cwdarg": "", "oscwd": wdir_of[e["cwd"]]})
     model = None
     try:
         model = ctx.driver("PathMode", lines)
@@ -614,6 +650,14 @@ def path_stage(ctx: Ctx, alphabet, nflags):
             ctx.count()
             if [mk["relative"], mk["absolute"], mk["cwd"]] != e["with_cwd"]:
                 corr_bad.append((0, e, "cwd=", e["with_cwd"], [mk["relative"], mk["absolute"], mk["cwd"]]))
+        base_i = len(keys) + 2 * len(entries)
+        for i, e in enumerate(entries):
+            ctx.count(3)
+            got = [[m["relative"], m["absolute"], m["cwd"]] for m in model[base_i + 3 * i: base_i + 3 * i + 3]]
+            if e["copies"] is not None and got != e["copies"]:
+                corr_bad.append((0, e, "Path(Path)/cwd=''", e["copies"], got))
+            if e["copies"] is not None and (e["copies"][0] != e["with_cwd"] or e["copies"][1] != e["with_cwd"]):
+                viol.append((0, e, "", "ok", "Path(Path(%r, cwd=D), %r, cwd=E): %s but the copy does not keep relative/absolute/cwd: " + json.dumps(canon_paths(e["copies"][:2], root))))
     corr_bad.sort(key=lambda t: (t[0], t[1]["label"]))
     for _, e, cm, real, mo in corr_bad[:3]:
         ctx.tie_break("correspondence E6 (checkPath/mkPath vs jsonargparse.Path) disagrees",
@@ -706,17 +750,50 @@ def build_parser(levels, **kw):
 
 DIRS = ["a", "b", "b/y", "c", "c/d", "e/f/g", "w"]
 F_LIST = "C19-listfile-reresolved"
+F_ABSLINK = "C19-abspath-through-link"
+# directory symlinks of a program with prog["dirlinks"]: link (relative to the program's base) -> target directory
+LINKS = [("la", "b/y"), ("c/lk", "e/f"), ("w/lw", "a")]
+# for the `link/..` shapes: link -> (directory the kernel reaches for link/.., directory abspath makes of it, a sub-directory
+# that exists below the former and not below the latter)
+LINK_DOTDOT = {"la": ("b", "", "y"), "c/lk": ("e", "c", "f"), "w/lw": ("", "w", "b")}
+
+
+def kresolve(prog, p):
+    """the harness's own oracle of kernel path resolution for an absolute canonical path below /FIX/g<id> (no existence
+    test): components left to right, a directory link of the program is followed when it is reached, `..` is the parent
+    of the PHYSICAL directory reached so far"""
+    base = "/FIX/g%d" % prog["id"]
+    links = {base + "/" + lp: base + "/" + td for lp, td in LINKS} if prog.get("dirlinks") else {}
+    phys = ""
+    for comp in p.split("/"):
+        if comp in ("", "."):
+            continue
+        if comp == "..":
+            phys = phys.rsplit("/", 1)[0]
+            continue
+        phys = phys + "/" + comp
+        phys = links.get(phys, phys)
+    return phys or "/"
+
+
+def lex_bad(prog, base_dir, ref):
+    """does os.path.abspath change where the kernel goes for the directory of the file spelled `ref` from base_dir?"""
+    a = ref if ref.startswith("/") else base_dir + "/" + ref
+    d = os.path.dirname(a)
+    return kresolve(prog, d) != kresolve(prog, os.path.normpath(d))
+
 LEVEL_KEYS = ["pa", "pb", "pc", "pd", "pl", "lst", "dct", "inner"]
 
 
 class Gen:
     """generator of one load program; every spelling is unique (fresh names), paths use the literal root /FIX/g<id>"""
 
-    def __init__(self, rng, pid):
+    def __init__(self, rng, pid, links=False):
         self.rng = rng
         self.pid = pid
         self.base = "/FIX/g%d" % pid
         self.n = 0
+        self.links = links
 
     def fresh(self, prefix, ext=""):
         self.n += 1
@@ -724,6 +801,13 @@ class Gen:
 
     def spell(self, from_dir, target, detour=True):
         """a spelling of `target` (relative to the program's subtree) as seen from directory from_dir"""
+        if self.links and self.rng.random() < 0.35:
+            # name the target through a directory symlink (never followed by `..`: the leading `..`s of relpath come first)
+            td_of = os.path.dirname(target)
+            cands = [(lp, td) for lp, td in LINKS if td_of == td or td_of.startswith(td + "/")]
+            if cands:
+                lp, td = self.rng.choice(cands)
+                target = lp + target[len(td):]
         r = self.rng.random()
         if not detour and 0.35 <= r < 0.45:
             r = 0.9
@@ -894,6 +978,53 @@ class Gen:
             return True
         return False
 
+    def dotdot_program(self):
+        """one bracketed file spelled `<link>/../…` (open finding C19-abspath-through-link): the kernel follows the link
+        before `..`, os.path.abspath cancels the pair lexically.  shape "wrongdir": the lexical directory exists (same-named
+        decoys are put there), shape "nochdir": it does not (os.chdir raises inside __enter__)."""
+        rng = self.rng
+        wdir = rng.choice(DIRS)
+        lp = rng.choice([l for l, _ in LINKS])
+        true_dir, lex_dir, sib = LINK_DOTDOT[lp]
+        shape = rng.choice(["wrongdir", "nochdir"])
+        fdir = true_dir if shape == "wrongdir" else (true_dir + "/" + sib).lstrip("/")
+        tail = "" if shape == "wrongdir" else sib + "/"
+        kind = rng.choice(["cfg", "cfg", "inner", "dct", "list", "parse_path", "dcf"])
+
+        def in_dir(name):
+            return (fdir + "/" + name).lstrip("/")
+
+        def ref_of(name, absolute):
+            via = lp + "/../" + tail + name
+            return self.base + "/" + via if absolute else os.path.relpath(lp, wdir) + "/../" + tail + name
+
+        if kind == "list":
+            f = in_dir(self.fresh("l", ".txt"))
+            els = []
+            for _ in range(rng.randint(1, 2)):
+                nm = self.fresh("p", ".txt")
+                els.append({"rel": nm, "target": in_dir(nm)})
+            node = {"k": "list", "key": "lst", "ref": ref_of(os.path.basename(f), True), "file": f, "els": els, "yaml": rng.random() < 0.5,
+                    "dir": wdir, "fdir": fdir}
+        else:
+            f = in_dir(self.fresh("c", ".yaml"))
+            items = []
+            for key in rng.sample(["pa", "pb", "pd"], rng.randint(1, 2)):
+                nm = self.fresh("d") if key == "pd" else self.fresh("p", ".txt")
+                items.append({"k": "path", "key": self.fresh("k") if kind == "dct" else key, "rel": nm, "target": in_dir(nm),
+                              "kind": "file" if kind == "dct" or key != "pd" else "dir", "dir": fdir})
+            key = kind if kind in ("inner", "dct") else "cfg"
+            node = {"k": "sub", "key": key, "ref": ref_of(os.path.basename(f), kind == "dcf" or rng.random() < 0.3), "file": f, "items": items,
+                    "dir": wdir, "fdir": fdir}
+        if shape == "wrongdir":
+            node["lexdecoy"] = lex_dir
+        entry = kind if kind in ("parse_path", "dcf") else "args"
+        top = [node]
+        if entry == "args" and rng.random() < 0.5:
+            extra = self.path_node("pc", wdir)
+            top.insert(rng.randint(0, 1), extra)
+        return {"id": self.pid, "wdir": wdir, "entry": entry, "top": top, "dirlinks": True, "dotdot": shape}
+
     def obj_node(self, key, f, d, items, dirmode):
         """a Path OBJECT for file (or directory) f in directory d: created from a spelling relative to a remembered
         directory `rem` - mostly the very directory the file sits in - either with cwd=rem or while the process was in rem"""
@@ -1004,10 +1135,16 @@ def norm_join(base, rel):
     return os.path.normpath(rel if rel.startswith("/") else base + "/" + rel)
 
 
-def list_stable(base, ref):
-    """does the spelling name the same file when resolved again from inside the file's directory?"""
-    first = norm_join(base, ref)
-    return norm_join(os.path.dirname(first), ref) == first
+def list_stable(base, ref, prog=None):
+    """does the spelling name the same file when resolved again from inside the file's directory?  (kernel resolution when
+    the program has directory links: the second resolution starts from the PHYSICAL directory of the file)"""
+    if prog is None or not prog.get("dirlinks"):
+        first = norm_join(base, ref)
+        return norm_join(os.path.dirname(first), ref) == first
+    a = ref if ref.startswith("/") else base + "/" + ref
+    d1 = kresolve(prog, os.path.dirname(a))
+    a2 = ref if ref.startswith("/") else d1 + "/" + ref
+    return kresolve(prog, os.path.dirname(a2)) == d1 and os.path.basename(a2) == os.path.basename(a)
 
 
 def model_items(prog, nodes=None):
@@ -1056,7 +1193,7 @@ def expectation(prog):
     against ITS source's directory: `final_of(seq)`."""
     base = "/FIX/g%d" % prog["id"]
     seq = []
-    flags = {"fail": False, "unstable": False, "g": 0}
+    flags = {"fail": False, "unstable": False, "g": 0, "lexbad": False}
 
     def absdir(d):
         return base + "/" + d
@@ -1081,8 +1218,10 @@ def expectation(prog):
                 for e in n["els"]:
                     seq.append((prefix + n["key"], g, triple(e["rel"], n["dir"]), True))
             elif k == "list":
-                if not n["yaml"] and not n.get("fail") and not list_stable(absdir(n["dir"]), n["ref"]):
+                if not n["yaml"] and not n.get("fail") and not list_stable(absdir(n["dir"]), n["ref"], prog):
                     flags["unstable"] = True
+                if lex_bad(prog, absdir(n["dir"]), n["ref"]):
+                    flags["lexbad"] = True
                 if n["yaml"]:
                     seq.append((prefix + n["key"] + "/ref", group(), triple(n["ref"], n["dir"]), False))   # modelled as a sub; no record kept
                 g = group()
@@ -1090,6 +1229,8 @@ def expectation(prog):
                     seq.append((prefix + n["key"], g, triple(e["rel"], n["fdir"]), True))
             elif k == "obj":
                 a = obj_abs(prog, n)
+                if lex_bad(prog, "/", a if not n["dirmode"] else a + "/x"):
+                    flags["lexbad"] = True
                 if prog["entry"] == "dcf_obj":
                     seq.append(("__default_config__", group(), (a, a, absdir(prog["wdir"])), True))
                 elif prog["entry"] == "apply_config_obj":
@@ -1098,14 +1239,19 @@ def expectation(prog):
                     seq.append(("obj", group(), (n["ref"], a, absdir(n["rem"])), False))   # parse_path / relative_path_context keep no record
                 walk(n["items"], prefix)
             elif n["key"] == "cfg":
+                if lex_bad(prog, absdir(n["dir"]), n["ref"]):
+                    flags["lexbad"] = True
                 # parse_path does not record the file it was given; --cfg accumulates every file
                 seq.append(("cfg/%d" % group(), group(), triple(n["ref"], n["dir"]), not (top and prog["entry"] == "parse_path")))
                 walk(n["items"], prefix)
             else:
+                if lex_bad(prog, absdir(n["dir"]), n["ref"]):
+                    flags["lexbad"] = True
                 seq.append((prefix + n["key"] + ".__path__", group(), triple(n["ref"], n["dir"]), True))
                 walk(n["items"], prefix + n["key"] + ".")
 
     walk(exec_top(prog), "", top=True)
+    prog["_lexbad"] = flags["lexbad"]
     return (not flags["fail"]), seq, flags["unstable"]
 
 
@@ -1134,10 +1280,25 @@ def materialise(prog, root):
 
     for d in DIRS:
         os.makedirs(os.path.join(base, d), exist_ok=True)
+    if prog.get("dirlinks"):
+        for lp, td in LINKS:
+            os.symlink(os.path.relpath(os.path.join(base, td), os.path.dirname(os.path.join(base, lp))), os.path.join(base, lp))
 
     def touch(p, text="x\n"):
         with open(p, "w") as f:
             f.write(text)
+
+    def lex_decoys(n):
+        """same-named entries in the directory os.path.abspath makes of `<link>/..` (shape "wrongdir")"""
+        if "lexdecoy" not in n:
+            return
+        for c in (n.get("items") or []) + [{"rel": e["rel"], "kind": "file"} for e in n.get("els", [])]:
+            q = os.path.join(base, n["lexdecoy"], c["rel"])
+            if not os.path.lexists(q):
+                if c.get("kind") == "dir":
+                    os.mkdir(q)
+                else:
+                    touch(q, "decoy\n")
 
     def write_file(n, text):
         """the config / list / context file of node n; when n["link"] names a directory the file is a SYMLINK to a file
@@ -1172,7 +1333,7 @@ def materialise(prog, root):
         if fail == "wrongdir":
             # exists relative to the process working directory only
             q = os.path.normpath(os.path.join(base, prog["wdir"], rel))
-            if q != os.path.normpath(p) and q.startswith(base + "/"):
+            if os.path.realpath(q) != os.path.realpath(p) and q.startswith(base + "/"):
                 os.makedirs(os.path.dirname(q), exist_ok=True)
                 touch(q)
             return
@@ -1202,6 +1363,7 @@ def materialise(prog, root):
     def write_nodes(nodes):
         for n in nodes:
             fail = n.get("fail")
+            lex_decoys(n)
             if n["k"] == "path":
                 make_target(n["target"], n["kind"], fail, n["rel"], n["dir"])
             elif n["k"] in ("pathlist", "list"):
@@ -1296,6 +1458,29 @@ def flatten_paths(cfg):
     return out
 
 
+def measure_fs(root, base):
+    """the kernel's directory automaton of one program's subtree, measured with os.path.realpath: names[k] = canonical physical
+    name of directory k (0 = "/", 1 = the scratch root), edges = (from, component, to) for every entry that leads to a
+    directory (sub-directories, symbolic links to directories, `..`)"""
+    phys = ["/", root, base]
+    for cur, dirs, _files in os.walk(base):
+        for d in sorted(dirs):
+            q = os.path.join(cur, d)
+            if not os.path.islink(q):
+                phys.append(q)
+    idx = {q: i for i, q in enumerate(phys)}
+    edges = [[0, "..", 0], [0, os.path.basename(root), 1], [1, "..", 0], [1, os.path.basename(base), 2]]
+    for q in phys[2:]:
+        par = os.path.realpath(os.path.join(q, ".."))
+        if par in idx:
+            edges.append([idx[q], "..", idx[par]])
+        for e in sorted(os.listdir(q)):
+            t = os.path.realpath(os.path.join(q, e))
+            if os.path.isdir(t) and t in idx:
+                edges.append([idx[q], e, idx[t]])
+    return {"names": phys, "edges": edges}
+
+
 def load_child(root, progs):
     import jsonargparse._util as U
     from jsonargparse import ArgumentError
@@ -1316,6 +1501,7 @@ def load_child(root, progs):
     out = []
     for prog in progs:
         W, argv, kw, call, env = materialise(prog, root)
+        fs_table = measure_fs(root, os.path.join(root, "g%d" % prog["id"])) if prog.get("dirlinks") else None
         os.chdir(W)
         res = {}
         for k in [k for k in os.environ if k.startswith("C19X_")]:
@@ -1355,7 +1541,12 @@ def load_child(root, progs):
         if cpd is not None:
             U.current_path_dir.set(None)
         os.chdir(root)
-        out.append(canon_paths(res, root))
+        res = canon_paths(res, root)
+        if fs_table:
+            # the edge from "/" to the scratch root carries the root's real name; canonically the root is /FIX
+            fs_table["edges"][1][1] = "FIX"
+            res["fs"] = {"names": ["/FIX" + q[len(root):] if q.startswith(root) else q for q in fs_table["names"]], "edges": fs_table["edges"]}
+        out.append(res)
     return out
 
 
@@ -1379,6 +1570,9 @@ def judge_load(ctx, prog, real, model):
             if mt != rt:
                 corr = "resolved paths differ: only model %s, only real %s" % (sorted(mt - rt)[:3], sorted(rt - mt)[:3])
     orc, known = None, None
+    if model is not None and "good" in model and model["good"] == bool(prog.get("_lexbad") or (unstable and exp_ok)) and model["exist"] and exp_ok:
+        # the harness's reading of "abspath is harmless and list files are stable" (kresolve) and the model's goodItemsF disagree
+        corr = corr or "goodItemsF=%s but the harness finds lexbad=%s unstable=%s" % (model["good"], prog.get("_lexbad"), unstable)
     if real["cwd_after"] != W:
         orc = "working directory after the call is %s, was %s" % (real["cwd_after"], W)
     elif real["cpd_after"] is not None:
@@ -1396,12 +1590,25 @@ def judge_load(ctx, prog, real, model):
         rt = {tuple(t) for t in real["paths"]}
         if rt != triples:
             orc = "path values are not resolved against the directory of their (last) source: unexpected %s, missing %s" % (sorted(rt - triples)[:3], sorted(triples - rt)[:3])
+    if orc and prog.get("_lexbad") and real["cwd_after"] == W and not (real["ok"] and not exp_ok):
+        # a bracketed file spelled through `<link>/..`: wrong directory, or os.chdir raising inside __enter__ (current_path_dir stays set)
+        known, orc = F_ABSLINK, None
     return corr, orc, known
 
 
 def run_programs(ctx, root, progs):
     reals = in_child(load_child, root, progs)
-    lines = [{"op": "run", "cwd": "/FIX/g%d/%s" % (p["id"], p["wdir"]), "cpd": None, "items": model_items(p)} for p in progs]
+    lines = []
+    for p, r in zip(progs, reals):
+        W = "/FIX/g%d/%s" % (p["id"], p["wdir"])
+        if p.get("dirlinks"):
+            # the file-system model: the kernel's automaton as measured in the child
+            if W not in r["fs"]["names"]:
+                raise MachineryError("measured file system has no directory " + W)
+            lines.append({"op": "runfs", "names": r["fs"]["names"], "edges": r["fs"]["edges"], "cwd": r["fs"]["names"].index(W), "cpd": None,
+                          "items": model_items(p)})
+        else:
+            lines.append({"op": "run", "cwd": W, "cpd": None, "items": model_items(p)})
     models = [None] * len(progs)
     try:
         models = ctx.driver("PathMode", lines)
@@ -1458,8 +1665,14 @@ def load_stage(ctx: Ctx, nprog):
             progs.append(c["prog"])
     ncorpus = len(progs)
     for i in range(nprog):
-        g = Gen(rng, 1000 + i)
+        r = rng.random()
+        g = Gen(rng, 1000 + i, links=r < 0.3)
+        if r < 0.04:
+            progs.append(g.dotdot_program())
+            continue
         p = dedupe_keys(g.program())
+        if g.links:
+            p["dirlinks"] = True
         failed = False
         if p["entry"] in ("args", "dcf") and rng.random() < 0.4:
             failed = g.add_duplicates(p)
@@ -1479,6 +1692,9 @@ def load_stage(ctx: Ctx, nprog):
         nodes = list(all_nodes(p["top"]))
         depth = prog_depth(p["top"])
         ctx.hist("load_entry", p["entry"])
+        ctx.hist("load_dir_links", "link/.. (%s)" % p["dotdot"] if p.get("dotdot") else "links on the way" if p.get("dirlinks") and any(
+            any(("/" + lp + "/") in ("/" + str(n.get(k, "")) + "/") or str(n.get(k, "")).startswith(lp + "/") for lp, _ in LINKS) for n in nodes for k in ("ref", "rel")) else
+            "links present, unused" if p.get("dirlinks") else "no links")
         if p.get("dup"):
             ctx.hist("load_duplicate_key", p["dup"])
         ctx.hist("load_symlinked_files", sum(1 for n in nodes if n.get("link")))
@@ -1490,8 +1706,12 @@ def load_stage(ctx: Ctx, nprog):
         if depth >= 1 and len(nodes) >= 2:
             ctx.nontrivial("load|" + json.dumps(model_items(p), sort_keys=True) + "|" + p["wdir"] + "|" + p["entry"])
         corr, orc, known = judge_load(ctx, p, real, model)
-        if known and ctx.is_open(known):
-            ctx.known(known, "a List[Path] argument rejects a line-per-path list file named by a relative spelling with a directory part (e.g. %s), the absolute spelling is accepted" % next((n["ref"] for n in nodes if n["k"] == "list" and not n["yaml"] and not list_stable("/FIX/g%d/%s" % (p["id"], n["dir"]), n["ref"])), "?"))
+        if known == F_ABSLINK and ctx.is_open(known):
+            ctx.known(known, "a config / list file spelled through <link>/.. (%s): os.path.abspath cancels the pair before os.chdir -> %s" % (
+                next((n["ref"] for n in nodes if "ref" in n and "/../" in n["ref"]), "?"),
+                "relative paths inside are resolved against another directory" if real["ok"] else "%s, current_path_dir=%r afterwards" % (real.get("exc"), real["cpd_after"])))
+        elif known and ctx.is_open(known):
+            ctx.known(known, "a List[Path] argument rejects a line-per-path list file named by a relative spelling with a directory part (e.g. %s), the absolute spelling is accepted" % next((n["ref"] for n in nodes if n["k"] == "list" and not n["yaml"] and not list_stable("/FIX/g%d/%s" % (p["id"], n["dir"]), n["ref"], p)), "?"))
         elif known:
             orc = "parse fails (%s) although every path exists relative to its config file" % " ".join(real.get("msg", "").split())[-200:]
         if corr:
@@ -1549,7 +1769,7 @@ def rebase(prog, new_id):
 
 def run(ctx: Ctx):
     repo_python_path()
-    ctx.rule = ("path stage: every valid mode string of <=3 (thorough <=4) flags over the alphabet probed from Path._check_mode x fixture entries "
+    ctx.rule = ("default stage: full grid (Path default or none) x (same / other spelling) x (mode satisfied here or not) x (Path_fr / Optional). path stage: every valid mode string of <=3 (thorough <=4) flags over the alphabet probed from Path._check_mode x fixture entries "
                 "(path kind x spelling x working directory), real Path(p, mode) under uid 65534 vs Lean checkPath on independently taken facts vs the "
                 "docstring oracle; non-trivial = (cwd, entry, flag multiset) whose outcome is a rejection or an acceptance of an existing path. "
                 "load stage: generated programs of nested config files; non-trivial = program with >=1 config level and >=2 nodes, distinct by "
@@ -1558,8 +1778,9 @@ def run(ctx: Ctx):
         "the file system does not change between two probes of one Path() call (facts are one snapshot)",
         "os.stat/os.access/os.path.realpath/expanduser of the running Python are the oracle of the file system",
         "URL/fsspec paths, Windows and skip_check are outside; flags u and s only permit",
-        "DIRECTORIES on the way to config files are not symlinks (os.getcwd() after chdir equals normpath of the joined path); config, "
-        "list and context FILES may be symlinks: their directory is the one they are named in (dirname of .absolute), never the target's",
+        "programs without prog['dirlinks'] (string model): DIRECTORIES on the way to config files are not symlinks; programs with it (file-system "
+        "model): three directory symlinks per tree, spellings go through them, the kernel's automaton is measured with os.path.realpath; config, "
+        "list and context FILES may be symlinks in both: their directory is the one they are named in (dirname of .absolute), never the target's",
         "list files: nothing else lives where the second resolution of a relative spelling points",
         "path-typed arguments have no Path-object default (the `val == default` shortcut of adapt_typehints is the open finding C19-default-same-spelling)",
     ]
@@ -1572,6 +1793,7 @@ def run(ctx: Ctx):
     corpus_paths(ctx)
     path_stage(ctx, alphabet, ctx.budget(3, 4))
     load_stage(ctx, ctx.budget(400, 5000) * (2 if ctx.search_boost > 1 else 1))
+    default_stage(ctx)
     ctx.replay_fixed_demos()
     replay_open_findings(ctx)
 
@@ -1629,6 +1851,69 @@ def replay_open_findings(ctx):
                 ctx.known(f["id"], f["description"])
             else:
                 ctx.stale_findings.append(f["id"])
+
+
+def default_grid_child(root, cases):
+    """a path-typed argument with / without a Path default, given the default's spelling or another one, from a directory
+    where the file exists or not: what comes back (a Path, the plain str, a rejection)"""
+    from typing import Optional
+
+    from jsonargparse import ArgumentParser, Path
+    from jsonargparse.typing import Path_fr
+
+    os.makedirs(os.path.join(root, "a"))
+    os.makedirs(os.path.join(root, "w"))
+    out = []
+    for c in cases:
+        for nm in {c["v"], c["dspell"]}:
+            with open(os.path.join(root, "a", nm), "w") as f:
+                f.write("x\n")
+            q = os.path.join(root, "w", nm)
+            if os.path.exists(q):
+                os.remove(q)
+        if c["sat"]:
+            with open(os.path.join(root, "w", c["v"]), "w") as f:
+                f.write("x\n")
+        os.chdir(os.path.join(root, "a"))
+        default = Path_fr(c["dspell"]) if c["default"] else None
+        os.chdir(os.path.join(root, "w"))
+        parser = ArgumentParser(exit_on_error=False)
+        parser.add_argument("--file", type=Optional[Path_fr] if c["optional"] else Path_fr, default=default)
+        try:
+            v = parser.parse_args(["--file", c["v"]]).file
+            out.append("path" if isinstance(v, Path) and v.absolute == os.path.join(root, "w", c["v"]) else "str" if type(v) is str else "other:" + type(v).__name__)
+        except Exception:  # noqa: BLE001 - the class is the observation
+            out.append("reject")
+        os.chdir(root)
+    return out
+
+
+def default_stage(ctx):
+    """C19-default-same-spelling, exact: model `checkTypePath` vs the real parse on the full grid; a deviation from
+    "Path iff the mode is satisfied here" is the open finding exactly when the string equals the default's spelling"""
+    cases = [{"default": d, "optional": o, "sat": sat, "v": v, "dspell": "data1.txt"}
+             for d in (False, True) for o in (False, True) for sat in (False, True) for v in ("data1.txt", "other2.txt")]
+    reals = in_child(default_grid_child, make_root(), cases)
+    model = None
+    try:
+        model = ctx.driver("PathMode", [{"op": "checktype", "sat": c["sat"], "v": c["v"], "default": c["dspell"] if c["default"] else None} for c in cases])
+    except MachineryError as ex:
+        if ctx.lean_ok:
+            raise
+        ctx.tie_break("correspondence E6 not runnable (model does not build)", str(ex))
+    for i, (c, r) in enumerate(zip(cases, reals)):
+        ctx.count()
+        ctx.hist("default_grid", "%s|%s|%s" % ("Path default" if c["default"] else "no default", "same spelling" if c["v"] == c["dspell"] else "other spelling", "satisfied" if c["sat"] else "not satisfied"))
+        if model is not None and model[i]["r"] != r:
+            ctx.tie_break("correspondence E6 (checkTypePath vs parse_args of a path-typed argument with a default) disagrees", json.dumps({"case": c, "real": r, "model": model[i]["r"]}))
+        want = "path" if c["sat"] else "reject"
+        if r != want:
+            if c["default"] and c["v"] == c["dspell"] and not c["sat"] and r == "str" and ctx.is_open("C19-default-same-spelling"):
+                ctx.known("C19-default-same-spelling", "a path-typed argument whose default is Path(%r) returns the plain str %r from a directory where it does not satisfy the mode" % (c["dspell"], c["v"]))
+            else:
+                ctx.violation("--file %s (type %s, default %s) from a directory where the file %s gives %s" % (
+                    c["v"], "Optional[Path_fr]" if c["optional"] else "Path_fr", "Path_fr(%r) created elsewhere" % c["dspell"] if c["default"] else "None",
+                    "exists" if c["sat"] else "is missing", r), {"kind": "defaultgrid", "case": c, "real": r})
 
 
 def default_witness_child(root, w):
@@ -1716,6 +2001,10 @@ def replay(ctx: Ctx, body):
         r = in_child(default_witness_child, make_root(), rp)
         print(r)
         return 1 if r["deviates"] else 0
+    if rp.get("kind") == "defaultgrid":
+        r = in_child(default_grid_child, make_root(), [rp["case"]])
+        print("case:", rp["case"], "->", r[0])
+        return 1 if r[0] != ("path" if rp["case"]["sat"] else "reject") else 0
     if rp.get("kind") == "mode":
         from jsonargparse import Path
 
